@@ -100,6 +100,14 @@ theorem no_closer_stuck (n cap len : Nat) (cb : Callback) :
     isettles { Core.ok with closerOk := false } cb true cap n ⟨.reading, len⟩ = false := by
   cases n <;> simp [isettles, istep]
 
+/-- … and so is a closer whose `Close` cannot reach the reader: one call of `Fd()` on the pipe (it puts the
+descriptor into blocking mode, off the runtime poller) and the worker blocked on an idle pipe never returns -/
+theorem fd_call_stuck (f : Facts) (hfd : f.fdCalls ≠ 0) (n cap len : Nat) (cb : Callback) :
+    isettles f.core cb true cap n ⟨.reading, len⟩ = false := by
+  have hc : f.core.closerOk = false := by
+    cases hcl : f.closerOnCtx <;> simp [Facts.core, hcl, hfd]
+  cases n <;> simp [isettles, istep, hc]
+
 theorem blocking_open_stuck (n cap len : Nat) (cb : Callback) :
     isettles { Core.ok with openOk := false } cb true cap n ⟨.opening, len⟩ = false := by
   cases n <;> simp [isettles, istep]
